@@ -695,3 +695,611 @@ func ruleR133(c *Ctx) {
 		c.Missing("SetVariable", "no SetVariable method was found in pkg/data")
 	}
 }
+
+// ---- R134 .. R140 ----
+
+func init() {
+	register(&Rule{ID: "R134", Title: "an event egress forwards every event: no path of a forwarding ConsumeEvent returns before ForwardEvent except under the atomic 'active' gate of an activity", Min: 3, Run: ruleR134})
+	register(&Rule{ID: "R135", Title: "text is written escaped: no struct that a MarshalXML method encodes carries an `innerxml` field", Min: 15, Run: ruleR135})
+	register(&Rule{ID: "R136", Title: "a firing needs a taker: the channel a timer delivers its firings on is unbuffered, so that the cancellation guard beside every send stays effective", Min: 3, Run: ruleR136})
+	register(&Rule{ID: "R137", Title: "nodes live under the token's own context: the context a token hands to NextAction is its context parameter itself, not a derived context the token can cancel on its own", Min: 1, Run: ruleR137})
+	register(&Rule{ID: "R138", Title: "marshal writes what is there: a MarshalXML method does not replace a collection of the value it encodes by a filtered one", Min: 15, Run: ruleR138})
+	register(&Rule{ID: "R139", Title: "delivery is a post: every ConsumeEvent of an event node hands the event to the node's mailbox on every path (what to do with it is decided in the node's goroutine)", Min: 3, Run: ruleR139})
+	register(&Rule{ID: "R140", Title: "no update through a copy: a struct-valued range variable is not mutated (field assignment or pointer-receiver setter) without being stored back", Min: 0, Run: ruleR140})
+}
+
+func ruleR134(c *Ctx) {
+	p := c.P
+	what := "whoever is registered at an instance gets every event handed to it; an instance that drops a delivery it considers a duplicate (the same event value as last time) starves a listener that was armed between the two deliveries — two catch events for the same signal in sequence, a catch event in a loop"
+	n := 0
+	for _, f := range p.Funcs {
+		if f.Obj == nil || f.Body == nil || f.Obj.Name() != "ConsumeEvent" || !isTargetPkg(p, f.Pkg.PkgPath) {
+			continue
+		}
+		in := info(f)
+		g := p.Graph(f)
+		isFwd := func(nd ast.Node) bool {
+			return nd != nil && mentionsDeep(nd, func(m ast.Node) bool {
+				cl, ok := m.(*ast.CallExpr)
+				return ok && callee(in, cl) != nil && callee(in, cl).Name() == "ForwardEvent"
+			})
+		}
+		has := false
+		for _, pt := range g.AllPoints() {
+			if isFwd(pt.Node()) {
+				has = true
+			}
+		}
+		if !has {
+			continue
+		}
+		n++
+		bad := g.MustPassBeforeExit(g.Entry(), true, isFwd)
+		// the activity harness forwards only while it is active: a bypass controlled by an atomic load is its gate
+		gated := false
+		if len(bad) > 0 {
+			for _, pt := range g.AllPoints() {
+				if isFwd(pt.Node()) {
+					for _, cnd := range controlConds(p, f, pt.Node()) {
+						if mentionsDeep(cnd, func(m ast.Node) bool {
+							cl, ok := m.(*ast.CallExpr)
+							if !ok {
+								return false
+							}
+							fn := callee(in, cl)
+							return fn != nil && fn.Pkg() != nil && fn.Pkg().Path() == "sync/atomic" && strings.HasPrefix(fn.Name(), "Load")
+						}) {
+							gated = true
+						}
+					}
+				}
+			}
+		}
+		ok := len(bad) == 0 || gated
+		c.Check(ok, f, f.Decl, "forwarding in "+f.QName(), what, ifElse(len(bad) == 0, "every path passes ForwardEvent", ifElse(gated, "bypassed only under the atomic activity gate", "a path returns without forwarding: "+witnessLines(g, bad))))
+	}
+	if n == 0 {
+		c.Missing("forwarding consumers", "no ConsumeEvent that calls ForwardEvent was found")
+	}
+}
+
+func ruleR135(c *Ctx) {
+	p := c.P
+	what := "`,innerxml` writes a string verbatim into the document: a JSON body that contains < or & then produces XML that does not parse (or parses to a different text), where character data would have been escaped and read back unchanged"
+	n := 0
+	for _, f := range p.Funcs {
+		if f.Obj == nil || f.Body == nil || f.Obj.Name() != "MarshalXML" || !strings.HasSuffix(f.Pkg.PkgPath, "/schema") {
+			continue
+		}
+		n++
+		in := info(f)
+		bad := ""
+		check := func(t types.Type) {
+			if st, ok := t.Underlying().(*types.Struct); ok {
+				for i := 0; i < st.NumFields(); i++ {
+					if strings.Contains(st.Tag(i), "innerxml") {
+						bad = st.Field(i).Name() + " `" + st.Tag(i) + "`"
+					}
+				}
+			}
+		}
+		ast.Inspect(f.Body, func(m ast.Node) bool {
+			if cl, ok := m.(*ast.CallExpr); ok {
+				if fn := callee(in, cl); fn != nil && strings.HasPrefix(fn.Name(), "Encode") && fn.Pkg() != nil && fn.Pkg().Path() == "encoding/xml" && len(cl.Args) > 0 {
+					t := in.TypeOf(cl.Args[0])
+					if pt, ok := t.Underlying().(*types.Pointer); ok {
+						t = pt.Elem()
+					}
+					check(t)
+				}
+			}
+			return true
+		})
+		c.Check(bad == "", f, f.Decl, "what "+f.QName()+" encodes", what, ifElse(bad == "", "no innerxml field in the encoded value", "encodes a struct with field "+bad))
+	}
+	if n == 0 {
+		c.Missing("MarshalXML methods", "none found")
+	}
+}
+
+func ruleR136(c *Ctx) {
+	p := c.P
+	what := "every send of a firing is `select { case ch <- d: case <-ctx.Done(): }`: on an unbuffered channel the firing is delivered only to a consumer that is there, and a cancellation wins over a firing nobody takes. With a buffer the send always succeeds at once: a firing produced before the cancellation sits in the channel and reaches the consumer afterwards"
+	ce := chanEngine(p)
+	n := 0
+	for _, ms := range ce.Makes {
+		if shortPkg(ms.Func.Pkg.PkgPath) != "pkg/timer" {
+			continue
+		}
+		in := info(ms.Func)
+		ct, ok := in.TypeOf(ms.Call).Underlying().(*types.Chan)
+		if !ok || !isNamed(ct.Elem(), pathSchema, "TimerEventDefinition") {
+			continue
+		}
+		n++
+		c.Check(ms.Cap == "0", ms.Func, ms.Call, "capacity of a timer's firing channel", what, "capacity class: "+ms.Cap)
+	}
+	if n == 0 {
+		c.Missing("timer channel", "no make of a chan TimerEventDefinition was found in pkg/timer")
+	}
+}
+
+func ruleR137(c *Ctx) {
+	p := c.P
+	what := "a node starts its goroutine lazily, under the context of the first token that asks it (once.Do(go run(ctx))). If that context belongs to the token alone and the token cancels it when it is withdrawn, the node's goroutine dies with it: the withdrawn alternative of an event-based gateway can never be armed again and its mailbox fills up until event delivery blocks"
+	n := 0
+	for _, root := range tokenRoots(p) {
+		in := info(root)
+		inspectNoLit(root.Body, func(m ast.Node) bool {
+			cl, ok := m.(*ast.CallExpr)
+			if !ok || len(cl.Args) < 1 {
+				return true
+			}
+			fn := callee(in, cl)
+			if fn == nil || fn.Name() != "NextAction" {
+				return true
+			}
+			n++
+			okArg := false
+			if id, isId := unparen(cl.Args[0]).(*ast.Ident); isId {
+				if v, isVar := objOf(in, id).(*types.Var); isVar {
+					for fi := root; fi != nil; fi = fi.Parent {
+						if isParam(fi, v) {
+							okArg = true
+						}
+					}
+				}
+			}
+			c.Check(okArg, root, cl, "context handed to NextAction", what, ifElse(okArg, "the context parameter itself: "+exprString(cl.Args[0]), exprString(cl.Args[0])+" is not the context parameter of the token (a derived context)"))
+			return true
+		})
+	}
+	if n == 0 {
+		c.Missing("NextAction call", "no NextAction call was found in the token goroutine")
+	}
+}
+
+func ruleR138(c *Ctx) {
+	p := c.P
+	what := "the engine resolves a repeated header / property name to the last entry; a writer that keeps only the first occurrence of each name produces a document whose re-parsed model holds different extension data and routes differently"
+	n := 0
+	for _, f := range p.Funcs {
+		if f.Obj == nil || f.Body == nil || f.Obj.Name() != "MarshalXML" || !strings.HasSuffix(f.Pkg.PkgPath, "/schema") {
+			continue
+		}
+		n++
+		in := info(f)
+		bad := ""
+		inspectNoLit(f.Body, func(m ast.Node) bool {
+			as, ok := m.(*ast.AssignStmt)
+			if !ok || len(as.Lhs) != len(as.Rhs) {
+				return true
+			}
+			for i, l := range as.Lhs {
+				fv := fieldOf(in, l)
+				if fv == nil {
+					continue
+				}
+				if _, isSlice := fv.Type().Underlying().(*types.Slice); !isSlice {
+					continue
+				}
+				// reassigned from a call (a filter / transform) or a slice expression of itself
+				switch r := unparen(as.Rhs[i]).(type) {
+				case *ast.CallExpr:
+					if !isBuiltin(in, r, "append") || len(r.Args) < 2 {
+						bad = exprString(l) + " = " + exprString(r)
+					}
+				case *ast.SliceExpr:
+					bad = exprString(l) + " = " + exprString(r)
+				}
+			}
+			return true
+		})
+		c.Check(bad == "", f, f.Decl, "collections of the value "+f.QName()+" encodes", what, ifElse(bad == "", "no slice field of the encoded value is replaced", "replaced: "+bad))
+	}
+	if n == 0 {
+		c.Missing("MarshalXML methods", "none found")
+	}
+}
+
+func ruleR139(c *Ctx) {
+	p := c.P
+	what := "whether a node is listening is decided in the node's goroutine, in mailbox order relative to the token's request; a ConsumeEvent that looks at the flag itself and keeps or drops the event on the caller's side (to replay it to the next token) turns an event that found nobody listening into one that decides a later round of an event-based gateway"
+	n := 0
+	for _, f := range p.Funcs {
+		if f.Obj == nil || f.Body == nil || f.Obj.Name() != "ConsumeEvent" || f.Pkg.PkgPath != pathBpmn {
+			continue
+		}
+		r := recvNamed(f.Obj)
+		if r == nil {
+			continue
+		}
+		st, ok := r.Underlying().(*types.Struct)
+		if !ok {
+			continue
+		}
+		hasBox, hasRun := false, false
+		for i := 0; i < st.NumFields(); i++ {
+			if isMailboxChan(st.Field(i).Type()) {
+				hasBox = true
+			}
+		}
+		for _, g := range p.Funcs {
+			if g.Obj != nil && g.Obj.Name() == "run" && recvNamed(g.Obj) == r {
+				hasRun = true
+			}
+		}
+		// only nodes that deliver by posting (the harness forwards instead)
+		in := info(f)
+		posts := false
+		ast.Inspect(f.Body, func(m ast.Node) bool {
+			if s, ok := m.(*ast.SendStmt); ok && isMailboxChan(in.TypeOf(s.Chan)) {
+				posts = true
+			}
+			return true
+		})
+		if !hasBox || !hasRun || !posts {
+			continue
+		}
+		n++
+		g := p.Graph(f)
+		bad := g.MustPassBeforeExit(g.Entry(), true, func(nd ast.Node) bool {
+			return nd != nil && mentionsDeep(nd, func(m ast.Node) bool {
+				s, ok := m.(*ast.SendStmt)
+				return ok && isMailboxChan(in.TypeOf(s.Chan))
+			})
+		})
+		c.Check(len(bad) == 0, f, f.Decl, "delivery in "+f.QName(), what, ifElse(len(bad) == 0, "every path posts the event into the mailbox", "a path returns without posting: "+witnessLines(g, bad)))
+	}
+	if n == 0 {
+		c.Missing("posting consumers", "no ConsumeEvent of a node with a mailbox was found")
+	}
+}
+
+func ruleR140(c *Ctx) {
+	p := c.P
+	what := "`for _, v := range s` copies each element: assigning to a field of v, or calling a setter with a pointer receiver on it, changes the copy and is lost at the end of the iteration (way points that were meant to be shifted with their shapes stay where they were)"
+	// setters: pointer-receiver methods that assign receiver fields
+	setter := map[*types.Func]bool{}
+	for _, f := range p.Funcs {
+		if f.Obj == nil || f.Body == nil || f.Decl == nil || f.Decl.Recv == nil || len(f.Decl.Recv.List[0].Names) == 0 {
+			continue
+		}
+		sig := f.Obj.Type().(*types.Signature)
+		if _, ptr := sig.Recv().Type().(*types.Pointer); !ptr {
+			continue
+		}
+		in := info(f)
+		rv := in.Defs[f.Decl.Recv.List[0].Names[0]]
+		w := false
+		inspectNoLit(f.Body, func(m ast.Node) bool {
+			if as, ok := m.(*ast.AssignStmt); ok {
+				for _, l := range as.Lhs {
+					if sel, ok := unparen(l).(*ast.SelectorExpr); ok && fieldOf(in, sel) != nil {
+						if id := rootIdent(sel.X); id != nil && objOf(in, id) == rv {
+							w = true
+						}
+					}
+				}
+			}
+			return true
+		})
+		if w {
+			setter[f.Obj] = true
+		}
+	}
+	for _, f := range p.Funcs {
+		if f.Body == nil || !(isTargetPkg(p, f.Pkg.PkgPath) || strings.HasSuffix(f.Pkg.PkgPath, "/schema")) {
+			continue
+		}
+		if strings.Contains(p.Pos(f.Body.Pos()), "_generated") {
+			continue
+		}
+		in := info(f)
+		inspectNoLit(f.Body, func(m ast.Node) bool {
+			rs, ok := m.(*ast.RangeStmt)
+			if !ok || rs.Value == nil || rs.Tok != token.DEFINE {
+				return true
+			}
+			vid, ok := rs.Value.(*ast.Ident)
+			if !ok || vid.Name == "_" {
+				return true
+			}
+			vo := objOf(in, vid)
+			if vo == nil {
+				return true
+			}
+			if _, isStruct := vo.Type().Underlying().(*types.Struct); !isStruct {
+				return true
+			}
+			mutated, storedBack := "", false
+			inspectNoLit(rs.Body, func(z ast.Node) bool {
+				switch x := z.(type) {
+				case *ast.AssignStmt:
+					for i, l := range x.Lhs {
+						if sel, ok := unparen(l).(*ast.SelectorExpr); ok && fieldOf(in, sel) != nil {
+							if id := rootIdent(sel.X); id != nil && objOf(in, id) == vo {
+								mutated = exprString(l) + " = ..."
+							}
+						}
+						if i < len(x.Rhs) {
+							if rid, ok := unparen(x.Rhs[i]).(*ast.Ident); ok && objOf(in, rid) == vo {
+								storedBack = true
+							}
+						}
+					}
+				case *ast.CallExpr:
+					if fn := callee(in, x); fn != nil && setter[fn] {
+						if sel, ok := unparen(x.Fun).(*ast.SelectorExpr); ok {
+							if id, ok := unparen(sel.X).(*ast.Ident); ok && objOf(in, id) == vo {
+								mutated = exprString(x.Fun) + "(...)"
+							}
+						}
+					}
+					for _, a := range x.Args {
+						if rid, ok := unparen(a).(*ast.Ident); ok && objOf(in, rid) == vo {
+							storedBack = true // handed on by value: the changed copy is used
+						}
+						if u, ok := unparen(a).(*ast.UnaryExpr); ok && u.Op == token.AND {
+							if rid, ok := unparen(u.X).(*ast.Ident); ok && objOf(in, rid) == vo {
+								storedBack = true
+							}
+						}
+					}
+				}
+				return true
+			})
+			if mutated != "" && !storedBack {
+				c.Bad(f, rs, "mutation of range copy "+vid.Name, what, mutated+" on the copy "+vid.Name+" of an element of "+exprString(rs.X))
+			}
+			return true
+		})
+	}
+	c.Ok(nil, nil, "scan of struct-valued range variables", what, "every range statement of the hand-written target code was inspected", false)
+}
+
+// ---- R141 ----
+
+func init() {
+	register(&Rule{ID: "R141", Title: "a throw on its way is work of the set: the watcher counts every throw message on the set's wait group before it posts it, and the pump releases that count on every path of handling it", Min: 2, Run: ruleR141})
+}
+
+func ruleR141(c *Ctx) {
+	p := c.P
+	what := "a thrower that ends right after its throw takes its watcher off the wait group while the throw message is still in the pump's mailbox: WaitUntilComplete returns true (and the pump may see `done` first and stop) before the process the message flow instantiates exists. Counting the message itself closes the gap"
+	isThrowMsg := func(t types.Type) bool {
+		n := namedOf(t)
+		return n != nil && n.Obj().Name() == "throwMessage" && n.Obj().Pkg() != nil && n.Obj().Pkg().Path() == pathBpmn
+	}
+	n := 0
+	for _, f := range p.Funcs {
+		if f.Body == nil || f.Pkg.PkgPath != pathBpmn {
+			continue
+		}
+		in := info(f)
+		g := p.Graph(f)
+		// (a) posts
+		for _, pt := range g.AllPoints() {
+			s, ok := pt.Node().(*ast.SendStmt)
+			if !ok || !isMailboxChan(in.TypeOf(s.Chan)) || !isThrowMsg(in.TypeOf(s.Value)) {
+				continue
+			}
+			n++
+			counted := false
+			for _, q := range g.AllPoints() {
+				if q == pt || !g.Dominates(q, pt) {
+					continue
+				}
+				for _, cl := range callsIn(q.Node()) {
+					if isSyncMethod(in, cl, "WaitGroup", "Add") {
+						// in the same clause / block as the post: the count belongs to this message
+						if innermostCommOrCase(p, q.Node()) == innermostCommOrCase(p, s) {
+							counted = true
+						}
+					}
+				}
+			}
+			c.Check(counted, f, s, "post of a throw message", what, ifElse(counted, "preceded by WaitGroup.Add in the same clause", "no WaitGroup.Add precedes the post in its clause"))
+		}
+		// (b) handling
+		for _, arms := range typeDispatches(p, f, isIMessage) {
+			for _, a := range arms {
+				if len(a.Types) != 1 || !isThrowMsg(a.Types[0]) || len(a.Body) == 0 {
+					continue
+				}
+				n++
+				released, wit := false, "the clause does not release the count on every path"
+				// a helper that is handed the message and defers Done, or Done on all paths of the clause
+				for _, st := range a.Body {
+					for _, cl := range callsIn(st) {
+						if cf := p.byObj[callee(in, cl)]; cf != nil && cf.Pkg == f.Pkg && cf.Body != nil {
+							cin := info(cf)
+							cg := p.Graph(cf)
+							for _, d := range cg.Defers {
+								if isSyncMethod(cin, d.Node().(*ast.DeferStmt).Call, "WaitGroup", "Done") {
+									if dpt, ok := cg.PointOf(d.Node()); ok && cg.Dominates(dpt, dpt) {
+										// the defer must be reached on every path: it is a top-level statement before any return
+										early := cg.MustPassBeforeExit(cg.Entry(), true, func(z ast.Node) bool { return z == d.Node() })
+										if len(early) == 0 {
+											released, wit = true, "handled by "+cf.QName()+", which defers WaitGroup.Done before any return"
+										}
+									}
+								}
+							}
+						}
+					}
+				}
+				if !released {
+					if entry, ok := g.EntryOfStmts(a.Body); ok {
+						bad := g.RegionPaths(entry, regionOfStmts(a.Body), func(z ast.Node) bool {
+							for _, cl := range callsIn(z) {
+								if isSyncMethod(in, cl, "WaitGroup", "Done") {
+									return true
+								}
+							}
+							return false
+						})
+						if len(bad) == 0 {
+							released, wit = true, "WaitGroup.Done on every path of the clause"
+						}
+					}
+				}
+				c.Check(released, f, a.Node, "handling of a throw message", what, wit)
+			}
+		}
+	}
+	if n < 2 {
+		c.Missing("throw message protocol", "the post and the handling of throwMessage were not both found")
+	}
+}
+
+func innermostCommOrCase(p *Prog, n ast.Node) ast.Node {
+	for cur := p.Parent(n); cur != nil; cur = p.Parent(cur) {
+		switch cur.(type) {
+		case *ast.CaseClause, *ast.CommClause, *ast.FuncDecl, *ast.FuncLit:
+			return cur
+		}
+	}
+	return nil
+}
+
+// ---- R142, R143 ----
+
+func init() {
+	register(&Rule{ID: "R142", Title: "every way of starting an instance launches its monitor: in the function that triggers a start event, the (once-only) launch of the completion monitor precedes the trigger", Min: 1, Run: ruleR142})
+	register(&Rule{ID: "R143", Title: "builder ids are drawn, not counted: an identifier the builders generate contains random material (or is the caller's), never a position or a counter that repeats in the next process", Min: 8, Run: ruleR143})
+}
+
+func ruleR142(c *Ctx) {
+	p := c.P
+	what := "a process set instantiates a waiting process with StartWith alone; if only StartAll launches the completion monitor, such an instance runs to its end event without ever emitting CeaseFlowTrace: its watcher never finishes and the set never completes"
+	n := 0
+	for _, f := range p.Funcs {
+		if f.Body == nil || f.Pkg.PkgPath != pathBpmn {
+			continue
+		}
+		r := f.Root()
+		if r.Obj == nil || recvNamed(r.Obj) == nil || recvNamed(r.Obj).Obj().Name() != "Process" {
+			continue
+		}
+		in := info(f)
+		g := p.Graph(f)
+		for _, pt := range g.AllPoints() {
+			var trig *ast.CallExpr
+			for _, cl := range callsIn(pt.Node()) {
+				if fn := callee(in, cl); fn != nil && fn.Name() == "Trigger" && recvNamed(fn) != nil && recvNamed(fn).Obj().Name() == "startEvent" {
+					trig = cl
+				}
+			}
+			if trig == nil {
+				continue
+			}
+			n++
+			launched := false
+			for _, q := range g.AllPoints() {
+				if q == pt || !g.Dominates(q, pt) {
+					continue
+				}
+				for _, cl := range callsIn(q.Node()) {
+					if isSyncMethod(in, cl, "Once", "Do") && len(cl.Args) == 1 {
+						if mentionsDeep(cl.Args[0], func(m ast.Node) bool {
+							gs, ok := m.(*ast.GoStmt)
+							if !ok {
+								return false
+							}
+							return mentionsDeep(gs.Call, func(z ast.Node) bool {
+								c2, ok := z.(*ast.CallExpr)
+								return ok && callee(in, c2) != nil && strings.Contains(strings.ToLower(callee(in, c2).Name()), "monitor")
+							})
+						}) {
+							launched = true
+						}
+					}
+				}
+			}
+			c.Check(launched, f, trig, "trigger of a start event in "+f.QName(), what, ifElse(launched, "dominated by the once-only launch of the completion monitor", "no launch of the completion monitor dominates the trigger in this function"))
+		}
+	}
+	if n == 0 {
+		c.Missing("start trigger", "no call of (*startEvent).Trigger was found in a method of Process")
+	}
+}
+
+func ruleR143(c *Ctx) {
+	p := c.P
+	what := "ids have to be unique in the whole definitions document: a flow id built from the flow's position in its process (Flow_1, Flow_2, ...) repeats in every further process added to the same DefinitionBuilder, and AutoLayout then emits several edges for one bpmnElement"
+	n := 0
+	for _, f := range p.Funcs {
+		if f.Body == nil || !strings.HasSuffix(f.Pkg.PkgPath, "/schema") || !strings.HasSuffix(p.Fset.Position(f.Body.Pos()).Filename, "builder.go") {
+			continue
+		}
+		in := info(f)
+		drawn := func(e ast.Expr) (bool, string) {
+			// contains RandBytes(...) directly or through locals
+			var check func(e ast.Node, d int) bool
+			check = func(e ast.Node, d int) bool {
+				return mentionsDeep(e, func(m ast.Node) bool {
+					if cl, ok := m.(*ast.CallExpr); ok {
+						if fn := callee(in, cl); fn != nil && fn.Name() == "RandBytes" {
+							return true
+						}
+					}
+					if id, ok := m.(*ast.Ident); ok && d < 3 {
+						if o := objOf(in, id); o != nil && isLocalVar(f.Root(), o) {
+							defs, _ := localDefs(in, f.Root().Body, o)
+							for _, df := range defs {
+								if check(df, d+1) {
+									return true
+								}
+							}
+						}
+					}
+					return false
+				})
+			}
+			if check(e, 0) {
+				return true, "contains RandBytes"
+			}
+			// the caller's own id: a parameter or a field of a parameter
+			fromCaller := false
+			ast.Inspect(e, func(m ast.Node) bool {
+				if id, ok := m.(*ast.Ident); ok {
+					if v, ok := objOf(in, id).(*types.Var); ok && isParam(f.Root(), v) {
+						fromCaller = true
+					}
+				}
+				return true
+			})
+			if fromCaller {
+				return true, "the caller's id"
+			}
+			return false, exprString(e) + " is neither drawn from RandBytes nor supplied by the caller"
+		}
+		inspectNoLit(f.Body, func(m ast.Node) bool {
+			switch x := m.(type) {
+			case *ast.AssignStmt:
+				for i, l := range x.Lhs {
+					fv := fieldOf(in, l)
+					if fv == nil || fv.Name() != "IdField" || i >= len(x.Rhs) {
+						continue
+					}
+					n++
+					ok, wit := drawn(x.Rhs[i])
+					c.Check(ok, f, x, "generated id ("+exprString(l)+")", what, wit)
+				}
+			case *ast.CallExpr:
+				fn := callee(in, x)
+				if fn == nil || fn.Name() != "SetId" || len(x.Args) != 1 {
+					return true
+				}
+				n++
+				ok, wit := drawn(x.Args[0])
+				c.Check(ok, f, x, "generated id (SetId)", what, wit)
+			}
+			return true
+		})
+	}
+	if n == 0 {
+		c.Missing("builder ids", "no id assignment was found in schema/builder.go")
+	}
+}
